@@ -69,8 +69,11 @@ class Check:
             rank = {PROVED: 0, ASSUMED: 1, REFUTED: 2}
             if rank[status] > rank[o["status"]]:
                 o.update(status=status, where=where, detail=detail)
+                o["variants"] = []
                 if data is not None:
                     o["data"] = data
+            elif rank[status] < rank[o["status"]]:
+                return status == PROVED
         if variant and variant not in o["variants"]:
             o["variants"].append(variant)
         return status == PROVED
